@@ -9,7 +9,7 @@
                 assignment-style instance names have their four "_" separated fields.
    no_asg a   : no instance is named SDN_Assignment_...                                        *)
 From Coq Require Import List.
-From SV Require Import Base.Base Cmp.Comparer Cmp.Diff Cmp.Equiv Proofs.CmpWitness Proofs.CmpProps
+From SV Require Import Base.Base Cmp.Comparer Cmp.Diff Cmp.Equiv Proofs.CmpPinSet Proofs.CmpWitness Proofs.CmpProps
   Proofs.CmpSound Proofs.CmpComplete Proofs.CmpSoundExact.
 
 (* ---- accepts: a named netlist compared with itself / a structurally equal copy ---- *)
@@ -180,23 +180,23 @@ Print Assumptions C20_rejects_by_assertion.
                       a set (name, reference = definition name + library name, the same properties
                       (entry, key) with ==-equal values); original identifiers equal throughout
      nv_equiv_ord a b the same with the pins of every wire listed in the same order
-     nv_covered a b   like nv_equiv_ord, but the properties of a only have to occur in b
+     nv_covered_set a b  like nv_equiv, but the properties of a only have to occur in b
+     nv_covered a b      like nv_equiv_ord, but the properties of a only have to occur in b
      no_extra_props a b : instances of b have no property that the instance of a at the same
-                      place (library, definition, instance name / top) lacks                    *)
+                      place (library, definition, instance name / top) lacks
+   Since the repair of compare_cables (the pins of two wires are matched by key - kind, instance
+   name, port name, index - instead of position by position) the comparer decides nv_covered_set:
+   the order in which the pins of a wire are listed does not matter, like the order of libraries,
+   definitions, ports, cables and instances.                                                    *)
 
 (* SOUNDNESS: no structural difference is ever accepted.  Nothing is assumed about b. *)
 Theorem C20_sound : forall a b, wf_named a -> no_asg a -> no_extra_props a b ->
-  compare a b = true -> nv_equiv_ord a b.
+  compare a b = true -> nv_equiv a b.
 Proof. exact compare_sound. Qed.
 Print Assumptions C20_sound.
 
-Theorem C20_sound_sets : forall a b, wf_named a -> no_asg a -> no_extra_props a b ->
-  compare a b = true -> nv_equiv a b.
-Proof. exact compare_sound_set. Qed.
-Print Assumptions C20_sound_sets.
-
 (* without the side condition on properties: everything but properties only b has *)
-Theorem C20_sound_covered : forall a b, wf_named a -> no_asg a -> compare a b = true -> nv_covered a b.
+Theorem C20_sound_covered : forall a b, wf_named a -> no_asg a -> compare a b = true -> nv_covered_set a b.
 Proof. exact compare_sound_covered. Qed.
 Print Assumptions C20_sound_covered.
 
@@ -219,25 +219,64 @@ Example C20_no_extra_props_by_reverse_ex :
 Proof. exact reverse_ex. Qed.
 
 (* contrapositive: ANY difference (one, two, many at once) is refused *)
-Theorem C20_rejects_every_difference : forall a b, wf_named a -> no_asg a -> ~ nv_covered a b ->
+Theorem C20_rejects_every_difference : forall a b, wf_named a -> no_asg a -> ~ nv_covered_set a b ->
   compare a b = false.
 Proof. exact not_covered_rejected. Qed.
 Print Assumptions C20_rejects_every_difference.
 
 Theorem C20_rejects_every_structural_difference : forall a b, wf_named a -> no_asg a ->
-  no_extra_props a b -> ~ nv_equiv_ord a b -> compare a b = false.
+  no_extra_props a b -> ~ nv_equiv a b -> compare a b = false.
 Proof. exact not_equiv_rejected. Qed.
 Print Assumptions C20_rejects_every_structural_difference.
 Example C20_rejects_every_structural_difference_ex :
-  exists a b, wf_named a /\ no_asg a /\ no_extra_props a b /\ ~ nv_equiv_ord a b.
+  exists a b, wf_named a /\ no_asg a /\ no_extra_props a b /\ ~ nv_equiv a b.
 Proof. exact structural_difference_ex. Qed.
 
 (* two simultaneous differences (corpus/cmp/c20-double.json) *)
-Example C20_two_differences_ex : exists a b, wf_named a /\ wf_named b /\ no_asg a /\ ~ nv_covered a b.
+Example C20_two_differences_ex : exists a b, wf_named a /\ wf_named b /\ no_asg a /\ ~ nv_covered_set a b.
 Proof. exact double_ex. Qed.
 
-(* COMPLETENESS: every equivalent netlist is accepted, whatever the order of its siblings;
-   assignment-style instance names allowed.  Generalises C20_accepts (b = a). *)
+(* COMPLETENESS: every equivalent netlist is accepted, whatever the order of its siblings and
+   whatever the order in which the pins of its wires are listed.  Generalises C20_accepts (b = a).
+   (Was refuted - C20_complete_for_pin_sets_refuted, finding C20-pin-order-sensitive - while
+   compare_cables zipped the two pin lists.) *)
+Definition C20_complete_for_pin_sets : Prop :=
+  forall a b, wf_named a -> wf_named b -> no_asg a -> nv_equiv a b -> compare a b = true.
+
+Theorem C20_complete_for_pin_sets_holds : C20_complete_for_pin_sets.
+Proof. exact complete_for_pin_sets_holds. Qed.
+Print Assumptions C20_complete_for_pin_sets_holds.
+
+Theorem C20_complete_covered_set : forall a b, wf_named a -> wf_named b -> no_asg a -> nv_covered_set a b ->
+  compare a b = true.
+Proof. exact compare_complete_covered_set. Qed.
+Print Assumptions C20_complete_covered_set.
+
+Example C20_complete_for_pin_sets_ex : exists a b, a <> b /\ wf_named a /\ wf_named b /\ no_asg a /\ nv_equiv a b.
+Proof. exact complete_ex. Qed.
+Print Assumptions C20_complete_for_pin_sets_ex.
+
+(* the witness of the former refutation (corpus/cmp/c20-pin-order.json: the two pins of net k[0]
+   connected in the other order), replayed on the real Comparer on every run: equivalent, not
+   listed in the same order, accepted in both directions *)
+Example C20_pin_order_accepted :
+  exists a b, wf_named a /\ wf_named b /\ no_asg a /\ no_asg b /\ nv_equiv a b /\ ~ nv_equiv_ord a b /\
+              cmp_run a b = Accept /\ cmp_run b a = Accept.
+Proof. exact pin_order_witness. Qed.
+Print Assumptions C20_pin_order_accepted.
+
+(* nothing is lost by the repair: two pin lists that the comparison position by position accepts
+   (zip_pins, Proofs/CmpPinSet.v: what compare_cables did before - pin k of the first wire against
+   pin k of the second) are accepted by the comparison by key; no hypothesis on the netlists *)
+Theorem C20_positional_acceptance_kept : forall xo xc io ic wo wc, length wo = length wc ->
+  zip_pins xo xc io ic wo wc = Accept -> cmp_wire xo xc io ic wo wc = Accept.
+Proof. exact zip_accept_still_accepted. Qed.
+Print Assumptions C20_positional_acceptance_kept.
+Example C20_positional_acceptance_kept_ex :
+  exists xo xc io ic wo wc, wo <> nil /\ length wo = length wc /\ zip_pins xo xc io ic wo wc = Accept.
+Proof. exact zip_accept_ex. Qed.
+
+(* with the pins listed in the same order, assignment-style instance names are allowed too *)
 Theorem C20_complete : forall a b, wf_named a -> wf_named b -> nv_equiv_ord a b -> compare a b = true.
 Proof. exact compare_complete. Qed.
 Print Assumptions C20_complete.
@@ -247,25 +286,38 @@ Proof. exact compare_complete_covered. Qed.
 Print Assumptions C20_complete_covered.
 
 Example C20_complete_ex : exists a b, a <> b /\ wf_named a /\ wf_named b /\ nv_equiv_ord a b.
-Proof. exact complete_ex. Qed.
+Proof. exact complete_ord_ex. Qed.
 Print Assumptions C20_complete_ex.
+
+(* the hypothesis no_asg of C20_complete_for_pin_sets is needed: two instances named
+   SDN_Assignment_x_w / SDN_Assignment_y_w have the same key (only the width field w of such
+   names is compared), every pin takes the first pin of the other wire with its key, and the two
+   instances may have different references (witness corpus/cmp/c20-asg-pin-order.json, replayed
+   on the real Comparer on every run; part of the assignment-instance hole, not of the property's
+   named netlists) *)
+Theorem C20_complete_for_pin_sets_needs_no_asg :
+  exists a b, wf_named a /\ wf_named b /\ nv_equiv a b /\ compare a a = true /\ cmp_run a b = Reject.
+Proof. exact pin_sets_need_no_asg. Qed.
+Print Assumptions C20_complete_for_pin_sets_needs_no_asg.
 
 (* what compare() decides on named netlists, exactly *)
 Theorem C20_exact : forall a b, wf_named a -> wf_named b -> no_asg a ->
-  (compare a b = true <-> nv_covered a b).
+  (compare a b = true <-> nv_covered_set a b).
 Proof. exact compare_iff_covered. Qed.
 Print Assumptions C20_exact.
 
 Theorem C20_exact_both_ways : forall a b, wf_named a -> wf_named b -> no_asg a -> no_asg b ->
-  (compare a b = true /\ compare b a = true <-> nv_equiv_ord a b).
+  (compare a b = true /\ compare b a = true <-> nv_equiv a b).
 Proof. exact compare_both_ways. Qed.
 Print Assumptions C20_exact_both_ways.
 
 (* the class-by-class theorems above (C20_rejects_port_dir ... C20_rejects_inst_drop, all 19
    noticed classes) as corollaries of soundness, in acceptance form: a single difference of a
-   noticed class breaks the covered relation, hence is refused *)
+   noticed class breaks the covered relation - also when the pins of a wire are taken as a set:
+   a connection moved to another instance, port or bit is a different set of pins - hence is
+   refused *)
 Theorem C20_single_difference_not_equivalent : forall m a b, wf_named a -> noticed m = true ->
-  nv_diff m a b -> ~ nv_covered a b.
+  nv_diff m a b -> ~ nv_covered_set a b.
 Proof. exact nv_diff_not_covered. Qed.
 Print Assumptions C20_single_difference_not_equivalent.
 
@@ -282,34 +334,18 @@ Print Assumptions C20_rejects_single_diff_by_soundness.
 (* each side condition of C20_sound is exactly an open finding, and the hole is real:
    - no_extra_props: properties that only the second netlist has (C20-extra-properties) *)
 Theorem C20_sound_needs_no_extra_props :
-  exists a b, wf_named a /\ wf_named b /\ no_asg a /\ no_asg b /\ compare a b = true /\ ~ nv_equiv_ord a b.
+  exists a b, wf_named a /\ wf_named b /\ no_asg a /\ no_asg b /\ compare a b = true /\ ~ nv_equiv a b.
 Proof. exact extra_props_hole. Qed.
 Print Assumptions C20_sound_needs_no_extra_props.
 
 (* - no_asg: assignment instances are not compared, not even when comparing both ways
      (C20-assignment-instances-not-compared) *)
 Theorem C20_sound_needs_no_asg :
-  exists a b, wf_named a /\ wf_named b /\ compare a b = true /\ compare b a = true /\ ~ nv_covered a b.
+  exists a b, wf_named a /\ wf_named b /\ compare a b = true /\ compare b a = true /\ ~ nv_covered_set a b.
 Proof. exact assignment_hole. Qed.
 Print Assumptions C20_sound_needs_no_asg.
 (* - wf_named: unnamed elements and names with * or ? : C20_refuted_unnamed,
      C20_refuted_self_wildcard_names below *)
-
-(* COMPLETENESS fails when the pins of a wire are taken as a set: the comparer zips the two pin
-   lists, so the same connectivity listed in another order is refused
-   (witness corpus/cmp/c20-pin-order.json, replayed on the real Comparer on every run;
-   finding C20-pin-order-sensitive) *)
-Definition C20_complete_for_pin_sets : Prop :=
-  forall a b, wf_named a -> wf_named b -> nv_equiv a b -> compare a b = true.
-
-Theorem C20_complete_for_pin_sets_refuted : ~ C20_complete_for_pin_sets.
-Proof. exact complete_for_pin_sets_refuted. Qed.
-Print Assumptions C20_complete_for_pin_sets_refuted.
-
-Theorem C20_pin_order_rejected :
-  exists a b, wf_named a /\ wf_named b /\ no_asg a /\ no_asg b /\ nv_equiv a b /\ cmp_run a b = Reject.
-Proof. exact pin_order_witness. Qed.
-Print Assumptions C20_pin_order_rejected.
 
 (* the lower index of a port is not part of the property's list (direction, width, array-ness)
    and is never read by the comparer (witness corpus/cmp/c20-lower-index.json) *)
